@@ -119,11 +119,13 @@ impl Term {
 #[derive(Clone, Debug)]
 pub struct Naming {
     pub kind: String,
-    fwd: BTreeMap<u32, Slot>,
-    bwd: BTreeMap<Slot, u32>,
+    fwd: std::cell::RefCell<BTreeMap<u32, Slot>>,
+    bwd: std::cell::RefCell<BTreeMap<Slot, u32>>,
+    /// abstract name whose concrete `$f<n>` name is only parsed when it is first used
+    lazy: Option<u32>,
 }
 
-pub const NAMINGS: [&str; 5] = ["num-asc", "num-desc", "txt-fwd", "txt-rev", "fresh-big"];
+pub const NAMINGS: [&str; 7] = ["num-asc", "num-desc", "txt-fwd", "txt-rev", "fresh-big", "fresh-next", "fresh-lazy"];
 
 impl Naming {
     /// Build the naming `kind` for abstract names 1..=max in the *current thread*.
@@ -159,17 +161,52 @@ impl Naming {
                     fwd.insert(*k, Slot::named(&format!("f{}", 1_000_000 + 7 * *k)));
                 }
             }
+            "fresh-next" => {
+                // ONE name of the form `$f<n>` where n is EXACTLY the index Slot::fresh() would
+                // return next - a legitimate new name (never issued before); parsing it must move
+                // the fresh counter past it (C17), otherwise the next internal slot captures the
+                // user's.  It has to be the last name parsed (a later `$f<m>`, m > n, would move
+                // the counter anyway), so the other names are textual.
+                for k in names.iter().skip(1) {
+                    fwd.insert(*k, Slot::named(&format!("q{k}")));
+                }
+                if let Some(k) = names.first() {
+                    let probe = Slot::fresh().to_string(); // "$f<i>"
+                    let n: u64 = probe[2..].parse::<u64>().unwrap() + 1;
+                    fwd.insert(*k, Slot::named(&format!("f{n}")));
+                }
+            }
+            "fresh-lazy" => {
+                // like fresh-next, but name 1 is parsed only when a term that mentions it is
+                // converted (in the middle of the history): see `slot`.
+                for k in names.iter().skip(1) {
+                    fwd.insert(*k, Slot::named(&format!("z{k}")));
+                }
+            }
             _ => panic!("unknown naming {kind}"),
         }
         let bwd = fwd.iter().map(|(k, s)| (*s, *k)).collect();
-        Naming { kind: kind.to_string(), fwd, bwd }
+        let lazy = if kind == "fresh-lazy" { Some(1) } else { None };
+        Naming { kind: kind.to_string(), fwd: std::cell::RefCell::new(fwd), bwd: std::cell::RefCell::new(bwd), lazy }
     }
     pub fn slot(&self, k: u32) -> Slot {
-        *self.fwd.get(&k).unwrap_or_else(|| panic!("naming: abstract name {k} out of range"))
+        if let Some(s) = self.fwd.borrow().get(&k) {
+            return *s;
+        }
+        if self.lazy == Some(k) {
+            // `$f<n>` with n exactly the index the next Slot::fresh() would return
+            let probe = Slot::fresh().to_string();
+            let n: u64 = probe[2..].parse::<u64>().unwrap() + 1;
+            let s = Slot::named(&format!("f{n}"));
+            self.fwd.borrow_mut().insert(k, s);
+            self.bwd.borrow_mut().insert(s, k);
+            return s;
+        }
+        panic!("naming: abstract name {k} out of range")
     }
     /// abstract name of a concrete slot, if it is one of the user's names.
     pub fn name(&self, s: Slot) -> Option<u32> {
-        self.bwd.get(&s).copied()
+        self.bwd.borrow().get(&s).copied()
     }
     pub fn slotmap(&self, pairs: &[(u32, u32)]) -> SlotMap {
         pairs.iter().map(|(a, b)| (self.slot(*a), self.slot(*b))).collect()
